@@ -135,6 +135,7 @@ class Sched:
     self.finished = _real_allocate()
     self.finished.acquire()
     self.sigint = None          # optional callable(sched) -> None invoked at points of main
+    self.nevents = 0
 
   # ---- helpers used by controlled threads
   def me(self):
@@ -175,7 +176,11 @@ class Sched:
     if len(en) == 1:
       nxt = en[0]
     else:
-      nxt = self.policy.choose(self, en, cur if (cur is not None and not cur.done) else None)
+      try:
+        nxt = self.policy.choose(self, en, cur if (cur is not None and not cur.done) else None)
+      except Exception as e:  # pylint: disable=broad-except
+        self.failure = e      # e.g. ReplayDivergence: end the run, do not kill a controlled thread
+        return None
       self.decisions.append(([s.name for s in en], nxt.name,
                              cur.name if cur is not None and not cur.done else None))
     if timed_out:
@@ -331,6 +336,8 @@ class CoopLock:
       s.yield_('lock.acquire', deliver=deliver)
     if self.owner is None:
       self.owner = s.me()
+      if self.label:
+        s.emit('acq', self.label, self.owner.name)
       return True
     if not blocking:
       return False
@@ -339,11 +346,15 @@ class CoopLock:
                   deliver=deliver)
     if ok:
       self.owner = s.me()
+      if self.label:
+        s.emit('acq', self.label, self.owner.name)
     return ok
 
   def release(self):
     if self.owner is None:
       raise RuntimeError('release unlocked lock')
+    if self.label and controlled():
+      SCHED.emit('rel', self.label, getattr(self.owner, 'name', str(self.owner)))
     self.owner = None
     if not self.quiet and controlled():
       SCHED.yield_('lock.release')
@@ -400,27 +411,46 @@ def RLock():
 
 
 class CoopEvent(_real_Event):
-  """threading.Event whose flag operations are scheduling points (flag reads
-  are the only trace some protocols leave)."""
+  """threading.Event created by a controlled thread.  Its hash is its creation
+  index within the run, so that sets of events (e.g. the WeakSet of update
+  events) iterate in the same order in every run - object addresses would make
+  schedules irreproducible.  With `trace_events` the flag operations are
+  scheduling points as well (flag reads are the only trace some protocols
+  leave)."""
+
+  def __init__(self):
+    _real_Event.__init__(self)
+    s = SCHED
+    s.nevents += 1
+    self._seq = s.nevents
+    self._yield = s.trace_events
+
+  def __hash__(self):
+    return self._seq
+
+  def __eq__(self, other):
+    return self is other
 
   def is_set(self):
-    if controlled():
+    if self._yield and controlled():
       SCHED.yield_('event.is_set')
     return _real_Event.is_set(self)
 
   isSet = is_set
 
   def set(self):
+    if controlled():
+      SCHED.emit('set', id(self))
     _real_Event.set(self)
 
   def clear(self):
     _real_Event.clear(self)
-    if controlled():
+    if self._yield and controlled():
       SCHED.yield_('event.clear')
 
 
 def Event():
-  if controlled() and SCHED.trace_events and not _in_threading_init():
+  if controlled() and not _in_threading_init():
     return CoopEvent()
   return _real_Event()
 
